@@ -29,6 +29,8 @@ import (
 	"strconv"
 	"strings"
 	"time"
+
+	"github.com/vedadiyan/genql/compare"
 )
 
 //	Calculates the sum of a given numeric array
@@ -212,7 +214,8 @@ func CountFunc(query *Query, current Map, functionOptions *FunctionOptions, args
 func ConcatFunc(query *Query, current Map, functionOptions *FunctionOptions, args []any) (any, error) {
 	var buffer bytes.Buffer
 	for _, arg := range args {
-		buffer.WriteString(fmt.Sprintf("%v", arg))
+		// a number by its decimal text (1234567, not 1.234567e+06)
+		buffer.WriteString(compare.Text(arg))
 	}
 	return buffer.String(), nil
 }
@@ -367,7 +370,8 @@ func ChangeTypeFunc(query *Query, current Map, functionOptions *FunctionOptions,
 		}
 	case "string":
 		{
-			return fmt.Sprintf("%v", *value), nil
+			// a number by its decimal text (1234567, not 1.234567e+06)
+			return compare.Text(*value), nil
 		}
 	case "double":
 		{
